@@ -8,6 +8,7 @@ import (
 	"github.com/spf13/cobra"
 
 	"github.com/fatedier/frp/pkg/config/legacy"
+	"github.com/fatedier/frp/pkg/config/types"
 	v1 "github.com/fatedier/frp/pkg/config/v1"
 	"github.com/fatedier/frp/pkg/config/v1/validation"
 	"github.com/fatedier/frp/pkg/msg"
@@ -200,5 +201,29 @@ func verif_LoadClientConfig(path string, strict bool) {
 	}
 	if verif.Called(evFile) {
 		verif.Ensures(verif.CalledWith(evFile, 2, strict), "main_file_decoded_under_the_callers_strictness")
+	}
+}
+
+// PortsRangeSliceFlag.Set (--allow_ports on the frps command line; C18 "a
+// definition means the same in every format", command-line flags included): the
+// parsed ranges are written into the configuration field the flag was bound to
+// when it was registered - through the pointer, which itself stays where it
+// points - and a text that does not parse changes nothing.
+//
+//verif:contract (*~/pkg/config.PortsRangeSliceFlag).Set
+//verif:props C18 C09
+//verif:kinds post,pre
+func verif_PortsRangeSliceFlag_Set(f *PortsRangeSliceFlag, s string) {
+	verif.Requires(f.V != nil, "bound_to_a_configuration_field_by_RegisterServerConfigFlags")
+	target := f.V
+	old := *f.V
+	verif.ResetEvents()
+	err := f.Set(s)
+	const ev = "types.NewPortsRangeSliceFromString"
+	verif.Ensures(f.V == target, "flag_stays_bound_to_the_configuration_field")
+	if err == nil {
+		verif.Ensures(verif.CalledWith(ev, 0, s) && verif.Same(*target, verif.Ret[[]types.PortsRange](ev, 0)), "parsed_ranges_reach_the_configuration_field")
+	} else {
+		verif.Ensures(verif.Same(*target, old), "unparsable_text_changes_nothing")
 	}
 }
